@@ -185,3 +185,22 @@ Proof.
   intros. destruct reader_guards_present as (_ & -> & -> & _).
   split; apply Proofs3.uint_loop_no_overflow_panic.
 Qed.
+
+(* the remaining constants T1 reads, pinned to the values the format prescribes:
+   printable ASCII for into_ascii / into_char, the TYPE / CLASS prefixes of
+   RFC 3597, and the numbers of every mnemonic the model's schemas stand for *)
+Lemma limits_symbols :
+  ascii_lo = 32 /\ ascii_hi = 126 /\ ascii_esc_lo = 32 /\ ascii_esc_hi = 126 /\
+  char_esc_lo = 32 /\ char_esc_hi_excl = 127 /\ ascii_bound = 128 /\
+  asc_lo = 33 /\ asc_hi = 127 /\ asc_q_end = 34 /\
+  rtype_prefix = [84; 89; 80; 69] /\ class_prefix = [67; 76; 65; 83; 83].
+Proof. vm_compute. repeat split; reflexivity. Qed.
+
+Lemma schema_mnemonics_all :
+  map (from_mnemonic rtype_table)
+    [[77;68]; [77;70]; [77;66]; [77;71]; [77;82]; [77;73;78;70;79]; [82;80]; [68;78;65;77;69];
+     [83;83;72;70;80]; [84;76;83;65]; [79;80;69;78;80;71;80;75;69;89]]
+  = map Some [3; 4; 7; 8; 9; 14; 17; 39; 44; 52; 61]
+  /\ map (from_mnemonic class_table) [[73;78]; [67;72]; [72;83]; [78;79;78;69]; [42]]
+    = map Some [1; 3; 4; 254; 255].
+Proof. vm_compute. split; reflexivity. Qed.
